@@ -108,6 +108,39 @@ def outputs_external(job):
     return out
 
 
+def outputs_tool(job):
+    """every file the command-line tool writes for an input path and a set of options, and what it prints"""
+    import contextlib
+    import logging
+    import rnapolis.annotator as A
+    logging.disable(logging.CRITICAL)
+    names = {"-c": "o.csv", "-j": "o.json", "-b": "o.bpseq", "-p": "o.pml", "--inter-stem-csv": "inter.csv", "--stems-csv": "stems.csv"}
+    d = tempfile.mkdtemp(prefix="c14-tool-")
+    argv = [job["path"]]
+    for o in job["flags"]:
+        argv.append(o)
+        if o in names:
+            argv.append(os.path.join(d, names[o]))
+    out = {}
+    old, buf = sys.argv, io.StringIO()
+    sys.argv = ["annotator"] + argv
+    try:
+        with contextlib.redirect_stdout(buf), contextlib.redirect_stderr(io.StringIO()):
+            A.main()
+    finally:
+        sys.argv = old
+    out["printed"] = dig(buf.getvalue())
+    for o, n in names.items():
+        q = os.path.join(d, n)
+        if os.path.exists(q):
+            # the scratch directory's own name may appear nowhere in an output
+            out["file " + o] = dig(open(q, "rb").read().replace(d.encode(), b"<outdir>"))
+    for n in os.listdir(d):
+        os.remove(os.path.join(d, n))
+    os.rmdir(d)
+    return out
+
+
 def outputs_bpseq(job):
     from rnapolis.common import BpSeq, Entry
     b = BpSeq([Entry(i + 1, c, p) for i, (c, p) in enumerate(zip(job["seq"], job["pairs"]))])
@@ -127,7 +160,7 @@ def main():
     jobs = json.load(sys.stdin)
     res = []
     for job in jobs:
-        f = {"file": outputs_file, "external": outputs_external}.get(job["kind"], outputs_bpseq)
+        f = {"file": outputs_file, "external": outputs_external, "tool": outputs_tool}.get(job["kind"], outputs_bpseq)
         try:
             a = f(job)
         except Exception as e:  # noqa: BLE001
